@@ -159,13 +159,52 @@ pub fn build_bytes(c: &EncCase, centries: Vec<CKeyEntryData>, eentries: Vec<EKey
     if c.trailing {
         b = b.with_trailing_espec("b:{22=n,*=z}".to_string());
     }
-    for e in centries {
+    // One case in three puts decoy mappings in between and takes them out again with
+    // remove_ckey_entry / remove_ekey_entry before building; another one in three rebuilds the
+    // table from its own parsed output (EncodingBuilder::from_encoding_file). Decided by the seed.
+    let mode = c.seed % 3;
+    let mut r = Rng::new(c.seed ^ 0xDEC0);
+    let decoy = |r: &mut Rng| {
+        let mut k = [0xDEu8; 16];
+        k[4..].copy_from_slice(&r.bytes(12));
+        k
+    };
+    let (mut dc, mut de): (Vec<[u8; 16]>, Vec<[u8; 16]>) = (Vec::new(), Vec::new());
+    for (i, e) in centries.into_iter().enumerate() {
+        if mode == 1 && i % 5 == 0 {
+            let k = decoy(&mut r);
+            b.add_ckey_entry(CKeyEntryData { content_key: ContentKey::from_bytes(k), file_size: 77, encoding_keys: vec![EncodingKey::from_bytes(decoy(&mut r))] });
+            dc.push(k);
+        }
         b.add_ckey_entry(e);
     }
-    for e in eentries {
+    for (i, e) in eentries.into_iter().enumerate() {
+        if mode == 1 && i % 5 == 0 {
+            let k = decoy(&mut r);
+            b.add_ekey_entry(EKeyEntryData { encoding_key: EncodingKey::from_bytes(k), espec: ESPECS[0].to_string(), file_size: 78 });
+            de.push(k);
+        }
         b.add_ekey_entry(e);
     }
-    let file = b.build().map_err(|e| format!("EncodingBuilder::build: {e}"))?;
+    for k in &dc {
+        if !b.remove_ckey_entry(&ContentKey::from_bytes(*k)) || b.remove_ckey_entry(&ContentKey::from_bytes(*k)) || b.has_ckey_entry(&ContentKey::from_bytes(*k)) {
+            return Err("CONTRACT: remove_ckey_entry does not report the removal of a present / an absent key truthfully".into());
+        }
+    }
+    for k in &de {
+        if !b.remove_ekey_entry(&EncodingKey::from_bytes(*k)) || b.remove_ekey_entry(&EncodingKey::from_bytes(*k)) || b.has_ekey_entry(&EncodingKey::from_bytes(*k)) {
+            return Err("CONTRACT: remove_ekey_entry does not report the removal of a present / an absent key truthfully".into());
+        }
+    }
+    let mut file = b.build().map_err(|e| format!("EncodingBuilder::build: {e}"))?;
+    if mode == 2 {
+        // bytes -> parse -> from_encoding_file -> build: the table a tool gets when it edits a file
+        if let Ok(bytes) = file.build() {
+            if let Ok(parsed) = EncodingFile::parse(&bytes) {
+                file = EncodingBuilder::from_encoding_file(&parsed).build().map_err(|e| format!("EncodingBuilder::from_encoding_file(..).build: {e}"))?;
+            }
+        }
+    }
     if c.blte { file.build_blte().map_err(|e| format!("EncodingFile::build_blte: {e}")) } else { file.build().map_err(|e| format!("EncodingFile::build: {e}")) }
 }
 
